@@ -128,3 +128,30 @@ def maildir_sim(base_dir: str, *, layout: str = '++', users: Any = None,
 
 def rmtree(path: str) -> None:
     shutil.rmtree(path, ignore_errors=True)
+
+
+def set_password(sim: Sim, name: str, password: str,
+                 roles: Any = ()) -> None:
+    """Replace the stored secret of an existing user, the way the admin
+    interface does (Identity.set with a freshly hashed password)."""
+    from pymap.user import UserMetadata, Passwords
+    config, login = sim.config, sim.login
+
+    async def go() -> None:
+        pw = Passwords(config)
+        hashed = await pw.hash_password(password)
+        if sim.kind == 'dict':
+            from pymap.backend.dict import Identity
+            ident: Any = Identity(name, login, None, {'admin'})
+        else:
+            from pymap.backend.maildir import Identity as MIdentity
+            ident = MIdentity(config, login.tokens, name, None, {'admin'})
+        prev = None
+        try:
+            prev = (await ident.get()).entity_tag
+        except Exception:
+            pass
+        await ident.set(UserMetadata(config, name, password=hashed,
+                                     roles=frozenset(roles),
+                                     previous_entity_tag=prev))
+    sim.run(go())
